@@ -58,19 +58,80 @@ def _scan_b(bump):
     return _sig(scan_file(list(B.all_tokens), LANGUAGE)), _sig(scan_file(list(B2.all_tokens), LANGUAGE))
 
 
-def h_isolation(k0: int, k1: int, k2: int, k3: int, k4: int, d0: int, d1: int, d2: int, d3: int, d4: int, c0: int, c1: int, c2: int, c3: int, c4: int, s0: int, s1: int, s2: int, s3: int, s4: int, bump: bool) -> bool:
-    """
-    pre: soup._pre([k0, k1, k2, k3, k4], [d0, d1, d2, d3, d4], [c0, c1, c2, c3, c4], [s0, s1, s2, s3, s4])
-    post: _
-    """
-    r1 = _scan_b(False)
-    toks = soup.build([k0, k1, k2, k3, k4], [d0, d1, d2, d3, d4], [c0, c1, c2, c3, c4], [s0, s1, s2, s3, s4])
+@untraced
+def _isolation(ks, ds, cs, bump):
+    r1 = _scan_b.__wrapped__(False)
+    toks = soup.build(ks, ds, cs, [0, 0, 0, 0, 0])
     try:
         scan_file(toks, LANGUAGE)             # any file analysed in between, including ones that abort matching midway
     except Exception:
         pass
-    r2 = _scan_b(True if bump else False)
-    return fin(r1 == r2, True)
+    r2 = _scan_b.__wrapped__(bump)
+    return r1 == r2
+
+
+def h_isolation(k0: int, k1: int, k2: int, k3: int, k4: int, d0: int, d1: int, d2: int, d3: int, d4: int, c0: int, c1: int, c2: int, c3: int, c4: int, s0: int, s1: int, s2: int, s3: int, s4: int, bump: bool) -> bool:
+    """
+    pre: soup._pre([k0, k1, k2, k3, k4], [d0, d1, d2, d3, d4], [c0, c1, c2, c3, c4], [s0, s1, s2, s3, s4]) and all(d <= 1 for d in [d0, d1, d2, d3, d4]) and all(c in (1, 5) for c in [c0, c1, c2, c3, c4]) and s0 + s1 + s2 + s3 + s4 == 0
+    post: _
+    """
+    ks = [_real(k, len(soup.ALPHA)) for k in [k0, k1, k2, k3, k4]]
+    ds = [_small(d, (0, 1)) for d in [d0, d1, d2, d3, d4]]
+    cs = [_small(c, (1, 5)) for c in [c0, c1, c2, c3, c4]]
+    return fin(_isolation(ks, ds, cs, True if bump else False), True)
+
+
+def _expected_b(sk):
+    out = []
+    for i in sk.reportable():
+        t = sk.truth[i]
+        hs, be = sk.code[t["hs"]], sk.code[t["be"]]
+        out.append((t["name"], hs.location.line, hs.location.column, be.location.line, be.location.column + len(be.value), t["length"]))
+    return out
+
+
+@untraced
+def _scan_b_fresh():
+    return _sig(scan_file(list(B.all_tokens), LANGUAGE)), _sig(scan_file(list(B2.all_tokens), LANGUAGE))
+
+
+_SNAP_ISO = None
+
+
+def _small(x, pool):
+    for v in pool:
+        if x == v:
+            return v
+    return pool[0]
+
+
+@untraced
+def _first_file(ks, ds, cs, ss):
+    """Concrete here. The soup is the FIRST file the process ever analyses (process state reset to 'just imported'), then two canonical programs."""
+    from vlib.hx import StateSnapshot
+    global _SNAP_ISO
+    if _SNAP_ISO is None:
+        _SNAP_ISO = StateSnapshot()
+    _SNAP_ISO.restore()
+    toks = soup.build(ks, ds, cs, ss)
+    try:
+        scan_file(toks, LANGUAGE)             # may abort midway (ambiguity, ...): that is part of the scenario
+    except Exception:
+        pass
+    return _scan_b_fresh.__wrapped__() == (_expected_b(B), _expected_b(B2))
+
+
+def h_first_file(k0: int, k1: int, k2: int, k3: int, k4: int, d0: int, d1: int, d2: int, d3: int, d4: int, c0: int, c1: int, c2: int, c3: int, c4: int, s0: int, s1: int, s2: int, s3: int, s4: int) -> bool:
+    """
+    pre: soup._pre([k0, k1, k2, k3, k4], [d0, d1, d2, d3, d4], [c0, c1, c2, c3, c4], [s0, s1, s2, s3, s4]) and all(d <= 1 for d in [d0, d1, d2, d3, d4]) and all(c in (1, 5) for c in [c0, c1, c2, c3, c4]) and s0 + s1 + s2 + s3 + s4 == 0
+    post: _
+    """
+    # everything is realised by explicit branching and the scenario runs untraced: under tracing CrossHair makes the predicates' custom __hash__
+    # unusable as dict keys, which silently aborted the soup scan and hid a seeded shared-prototype defect
+    ks = [_real(k, len(soup.ALPHA)) for k in [k0, k1, k2, k3, k4]]
+    ds = [_small(d, (0, 1)) for d in [d0, d1, d2, d3, d4]]
+    cs = [_small(c, (1, 5)) for c in [c0, c1, c2, c3, c4]]
+    return fin(_first_file(ks, ds, cs, [0, 0, 0, 0, 0]), True)
 
 
 # ----------------------------------------------------------------------------------------------- transition-order independence
